@@ -135,7 +135,9 @@ def _build(case):
                 sas.append(data.SoundEventAnnotation(sound_event=se, tags=_truth_tags(case, it, T)))
             if not kind.startswith("ann"):
                 item_of[sp.uuid] = i
-                sps.append(data.SoundEventPrediction(sound_event=sp, score=1.0, tags=_pred_tags(case, it, T)))
+                # detection confidence: the item's `conf` quarters, 0 / absent = left at the model's default
+                conf = {"score": it["conf"] / 4} if it.get("conf") else {}
+                sps.append(data.SoundEventPrediction(sound_event=sp, tags=_pred_tags(case, it, T), **conf))
         extra = case["style"] == 1 and case["C"] >= 1
         anns.append(data.ClipAnnotation(clip=clip, sound_events=sas, tags=[T[0]] if extra else []))
         preds.append(data.ClipPrediction(clip=clip, sound_events=sps,
@@ -318,6 +320,9 @@ def random_cases(rng, tier):
                         it["f"][k] = code
                     else:
                         it["f"][k] = 0 if it["s"][k] == 0 or sum(it["s"]) >= u else it["f"][k]
+        if task in ("sec", "sed"):
+            for it in items:
+                it["conf"] = rng.choice([0, 4, 2, 1])
         if task == "sed":
             for it in items:
                 it["m"] = "both" if tied else rng.choice(["both", "both", "both", "pred", "ann", "pred", "ann", "pred0", "ann0"])
